@@ -1,5 +1,6 @@
 import Toq.Driver.C10
 import Toq.Model.PPTDisc
+import Toq.Model.PPTDiscHier
 /-! Driver front end for C12 (PPT state-discrimination certificate checkers).
 
 Ops (matrices in the `QJson` dyadic encoding, rationals as `[num, den]` or an integer; all matrices are
@@ -10,6 +11,21 @@ Ops (matrices in the `QJson` dyadic encoding, rationals as `[num, den]` or an in
 * `c12_ptranspose {"dA":·,"dB":·,"sys":·,"X":mat}` → `{"rows":[[…]…]}`: not needed by the checkers; returns the
   model's partial transpose entrywise as rationals `[[re_num,re_den,im_num,im_den]…]` (row-major) so that the harness
   can compare it with `toqito.channels.partial_transpose` / `picos.partial_transpose` on labelled inputs.
+
+* `c12_ppt_program {"dA","dB","sys","rho","p","form":"primal"|"dual"|"unamb", point…}`: the program `ppt_distinguishability` builds for
+  the form (`Toq.PPTDisc.primalPsdExprs` / `primalEqResidual` / `dualPsdExprs` / `unambOverlap`), evaluated at the point: `psd` = every
+  operator a constraint requires to be PSD (order of the code's constraints), `eq` = matrix residuals that must vanish, `zero` = scalar
+  residuals (`[re_num, re_den, im_num, im_den]`), `objective`, and `check` = verdict of the verified checker when witnesses are supplied
+  (point keys: primal/unamb `M`, `LM`, `LT`; dual `Y`, `Q`, `LQ`, `LS`; witnesses may be null).
+
+* `c12_dispatch {"primal_dual":str,"strategy":str}` → `{"program":"primal","extra":bool,"zero":bool}` | `{"program":"dual"}` | `{"reject":"ValueError"}`
+  (`Toq.PPTDisc.pptDispatch`)
+* `c12_symext_args {"dim_xy":n,"level":n,"dim":null|n|[a,b]}` → `{"dx","dy","size","dim_list","sys_list","pt_list"}` | `{"reject":…}`
+  (`Toq.PPTDisc.symExtDims` and the lists built from it)
+
+* `c12_symext_exprs {"dx","dy","level","meas_re","meas_im","x_re","x_im"}` (flat row-major integer arrays): the constraint expressions
+  `symmetric_extension_hierarchy` builds for one state (`Toq.PPTDisc.symExtExprs`) at the integer point `(meas, x)`:
+  `{"trace":[re,im],"sym":[re,im],"sym_scale":(level!)²,"pts":[[re,im]…]}`
 
 Answer `{"ok":[num,den]}` (the exact objective value returned by the verified checker) or
 `{"reject":"<first failed condition>"}`.  The verdict is always the one of the verified checker of
@@ -80,7 +96,109 @@ def hPTranspose : Handler := fun j => do
   let Z := pT sys X
   return Json.mkObj [("rows", Json.arr (Z.toRows.map fun r => Json.arr (r.map qiJson)))]
 
+def ematJson {n m : Nat} (A : EMat n m) : Json :=
+  let cells := (List.finRange n).flatMap fun i => (List.finRange m).map fun c => A.get i c
+  Json.mkObj [("re", Json.arr (cells.map fun z => ratJson z.re).toArray),
+    ("im", Json.arr (cells.map fun z => ratJson z.im).toArray)]
+
+def optEMatList (j : Json) (key : String) (n m : Nat) : Except String (List (EMat n m)) :=
+  if isNull j key then pure [] else getEMatList j key n m
+
+def checkJson (r : Option Rat) : Json :=
+  match r with
+  | some v => Json.mkObj [("ok", ratJson v)]
+  | none => reject "rejected"
+
+def hProgram : Handler := fun j => do
+  let dA ← getNat j "dA"
+  let dB ← getNat j "dB"
+  let sys ← getNat j "sys"
+  let rho ← getEMatList j "rho" (dA * dB) (dA * dB)
+  let p ← getRatList j "p"
+  let form ← (← j.getObjVal? "form").getStr?
+  let ens : Ensemble (dA * dB) := ⟨rho, p⟩
+  let k := ens.size
+  let ρ : Fin k → EMat (dA * dB) (dA * dB) := fun i => ens.state i
+  let pr : Fin k → Rat := fun i => ens.prob i
+  let mats (l : List (EMat (dA * dB) (dA * dB))) : Json := Json.arr (l.map ematJson).toArray
+  match form with
+  | "primal" =>
+    let M ← getEMatList j "M" (dA * dB) (dA * dB)
+    let LM ← optEMatList j "LM" (dA * dB) (dA * dB)
+    let LT ← optEMatList j "LT" (dA * dB) (dA * dB)
+    let Mf : Fin k → EMat (dA * dB) (dA * dB) := fun i => matAt M i
+    return Json.mkObj [("psd", mats (primalPsdExprs sys k Mf)), ("eq", mats [primalEqResidual k Mf]),
+      ("zero", Json.arr #[]), ("objective", ratJson (minErrValueFn k ρ pr Mf)),
+      ("check", checkJson (checkPPTPrimal sys ens M LM LT))]
+  | "dual" =>
+    let Y ← getEMat j "Y" (dA * dB) (dA * dB)
+    let Q ← getEMatList j "Q" (dA * dB) (dA * dB)
+    let LQ ← optEMatList j "LQ" (dA * dB) (dA * dB)
+    let LS ← optEMatList j "LS" (dA * dB) (dA * dB)
+    let Qf : Fin k → EMat (dA * dB) (dA * dB) := fun i => matAt Q i
+    return Json.mkObj [("psd", mats (dualPsdExprs sys k ρ pr Y Qf)), ("eq", mats []),
+      ("zero", Json.arr #[]), ("objective", ratJson Y.trace.re),
+      ("check", checkJson (checkPPTDual sys ens Y Q LQ LS))]
+  | "unamb" =>
+    let M ← getEMatList j "M" (dA * dB) (dA * dB)
+    let LM ← optEMatList j "LM" (dA * dB) (dA * dB)
+    let LT ← optEMatList j "LT" (dA * dB) (dA * dB)
+    let Mf : Fin (k + 1) → EMat (dA * dB) (dA * dB) := fun i => matAt M i
+    let zs : List Json := (List.finRange k).flatMap fun i => ((List.finRange k).filter fun j' => j' ≠ i).map fun j' =>
+      qiJson (unambOverlap k ρ pr Mf i j')
+    return Json.mkObj [("psd", mats (primalPsdExprs sys (k + 1) Mf)), ("eq", mats [primalEqResidual (k + 1) Mf]),
+      ("zero", Json.arr zs.toArray), ("objective", ratJson (pptUnambValueFn k ρ pr Mf)),
+      ("check", checkJson (checkPPTUnambPrimal sys ens M LM LT))]
+  | _ => return reject "unknown_form"
+
+def hDispatch : Handler := fun j => do
+  let pd ← (← j.getObjVal? "primal_dual").getStr?
+  let st ← (← j.getObjVal? "strategy").getStr?
+  match pptDispatch pd st with
+  | .ok (.primal extra zero) =>
+    return Json.mkObj [("program", Json.str "primal"), ("extra", Json.bool extra), ("zero", Json.bool zero)]
+  | .ok .dual => return Json.mkObj [("program", Json.str "dual")]
+  | .error e => return reject e
+
+def hSymExtArgs : Handler := fun j => do
+  let dimXY ← getNat j "dim_xy"
+  let level ← getNat j "level"
+  let dim : HDimArg ←
+    if isNull j "dim" then pure HDimArg.omitted
+    else match (← j.getObjVal? "dim") with
+      | .arr a =>
+        if a.size != 2 then throw "dim: expected [dx, dy]"
+        pure (HDimArg.pair (← a[0]!.getNat?) (← a[1]!.getNat?))
+      | v => pure (HDimArg.scalar (← v.getNat?))
+  match symExtDims dimXY dim with
+  | .error e => return reject e
+  | .ok (dx, dy) =>
+    return Json.mkObj [("dx", Json.num (dx : Nat)), ("dy", Json.num (dy : Nat)),
+      ("size", Json.num (symExtSize dx dy level : Nat)), ("dim_list", natListJson (symExtDimList dx dy level)),
+      ("sys_list", natListJson (symExtSysList level)), ("pt_list", natListJson (symExtPTList level))]
+
+def hSymExtExprs : Handler := fun j => do
+  let dx ← getNat j "dx"
+  let dy ← getNat j "dy"
+  let level ← getNat j "level"
+  let D := dx * dy
+  let N := symExtSize dx dy level
+  let mre ← getIntArray j "meas_re"
+  let mim ← getIntArray j "meas_im"
+  let xre ← getIntArray j "x_re"
+  let xim ← getIntArray j "x_im"
+  if mre.size != D * D || mim.size != D * D || xre.size != N * N || xim.size != N * N then
+    return reject "InvalidShape"
+  let er := symExtExprs dx dy level (matOfArray mre D) (matOfArray xre N)
+  let ei := symExtExprs dx dy level (matOfArray mim D) (matOfArray xim N)
+  let pair (n : Nat) (a b : Nat → Nat → Int) : Json :=
+    Json.arr #[intArrayJson (arrayOfMat n n a), intArrayJson (arrayOfMat n n b)]
+  return Json.mkObj [("trace", pair D er.traceRes ei.traceRes), ("sym", pair N er.symRes ei.symRes),
+    ("sym_scale", Json.num ((factN level * factN level : Nat))),
+    ("pts", Json.arr ((er.pts.zip ei.pts).map fun ab => pair N ab.1 ab.2).toArray)]
+
 def handlers : List (String × Handler) :=
-  [("c12_ppt_primal", hPrimal), ("c12_ppt_dual", hDual), ("c12_ptranspose", hPTranspose)]
+  [("c12_ppt_primal", hPrimal), ("c12_ppt_dual", hDual), ("c12_ptranspose", hPTranspose), ("c12_ppt_program", hProgram),
+   ("c12_dispatch", hDispatch), ("c12_symext_args", hSymExtArgs), ("c12_symext_exprs", hSymExtExprs)]
 
 end Toq.Driver.C12
